@@ -231,11 +231,22 @@ impl Gen<'_> {
     pub fn start(&mut self, max_trees: usize) -> bool {
         let frames = if self.flavor == Flavor::SingleSlot {
             (2 + self.rng.below(3)) * TREE_FRAMES - if self.rng.chance(1, 3) { self.rng.below(TREE_FRAMES) } else { 0 }
+        } else if self.flavor == Flavor::InitCycle && self.rng.chance(1, 2) {
+            // boundary-dense small counts: around rows, huge frames, trees
+            match self.rng.below(5) {
+                0 => 1 + self.rng.below(130),
+                1 => (64 * (1 + self.rng.below(2 * ROWS)) + self.rng.below(3)).saturating_sub(1).max(1),
+                2 => (HUGE_FRAMES * (1 + self.rng.below(2 * TREE_HUGE + 1)) + self.rng.below(3)).saturating_sub(1),
+                3 => (TREE_FRAMES * (1 + self.rng.below(max_trees)) + self.rng.below(3)).saturating_sub(1),
+                _ => 1 + self.rng.below(max_trees * TREE_FRAMES),
+            }
         } else {
             frame_choices(&mut self.rng, max_trees)
         };
         let (classes, default, pol) = classing_choice(&mut self.rng, self.flavor);
-        let init = if self.flavor == Flavor::SingleSlot || self.rng.chance(2, 3) { "free" } else { "alloc" };
+        let init = if self.flavor == Flavor::InitCycle {
+            if self.rng.chance(1, 2) { "free" } else { "alloc" }
+        } else if self.flavor == Flavor::SingleSlot || self.rng.chance(2, 3) { "free" } else { "alloc" };
         let cl = Config { frames, classes, default, pol };
         self.q(format!("geom {HUGE_ORDER} {TREE_HUGE}"));
         let zone = if self.flavor == Flavor::Zone {
@@ -417,8 +428,92 @@ impl Gen<'_> {
         }
     }
 
+    /// C06: look at every huge frame of the fresh allocator, then exhaust / free everything
+    fn init_cycle(&mut self) {
+        let c = self.cfg();
+        let nh = c.frames.div_ceil(HUGE_FRAMES);
+        for h in 0..nh.min(48) {
+            self.q(format!("statsat {} {HUGE_ORDER}", h * HUGE_FRAMES));
+            if (h + 1) * HUGE_FRAMES <= c.frames {
+                self.q(format!("isfree {} {HUGE_ORDER}", h * HUGE_FRAMES));
+            }
+        }
+        for t in 0..c.ntrees() {
+            self.q(format!("statsat {} {TREE_ORDER}", t * TREE_FRAMES));
+        }
+        for d in 1..=3usize {
+            if c.frames >= d {
+                self.q(format!("isfree {} 0", c.frames - d));
+                self.q(format!("statsat {} 0", c.frames - d));
+            }
+        }
+        for round in 0..2 {
+            if self.eng.inst.is_none() || self.eng.dead {
+                return;
+            }
+            let free = self.eng.shadow.as_ref().unwrap().free_frames();
+            if free > 0 {
+                // exhaust with one order, then with base frames; every further get must fail
+                let o = *self.rng.pick(&[0, 0, HUGE_ORDER, TREE_ORDER, 3, 6, 7]);
+                let class = self.rand_class();
+                for pass in 0..2 {
+                    let order = if pass == 0 { o } else { 0 };
+                    for _ in 0..(c.frames + 8) {
+                        let local = self.rand_local(class);
+                        let a = self.q(format!("get {order} {class} {} -", opt(local)));
+                        self.post();
+                        if !a.starts_with("ok") {
+                            break;
+                        }
+                    }
+                }
+                self.q("stats".into());
+                self.q("tstats".into());
+                self.validate_if_online();
+                // free everything that is held
+                while let Some(&(f, o)) = self.eng.held.last() {
+                    let class = self.rand_class();
+                    let local = self.rand_local(class);
+                    let a = self.q(format!("put {f} {o} {class} {}", opt(local)));
+                    self.post();
+                    if !a.starts_with("ok") {
+                        break;
+                    }
+                }
+            } else {
+                // allocate-all: nothing can be allocated; free it piecewise
+                for o in [0, HUGE_ORDER, TREE_ORDER] {
+                    let class = self.rand_class();
+                    let local = self.rand_local(class);
+                    self.q(format!("get {o} {class} {} -", opt(local)));
+                    self.post();
+                }
+                let mut f = 0;
+                while f < c.frames {
+                    let class = self.rand_class();
+                    let local = self.rand_local(class);
+                    let mut o = *self.rng.pick(&[TREE_ORDER, HUGE_ORDER, HUGE_ORDER, 0, 4]);
+                    while o > 0 && (f % (1 << o) != 0 || f + (1 << o) > c.frames) {
+                        o -= 1;
+                    }
+                    // partial frees of a whole huge frame split it: then continue with small orders
+                    self.q(format!("put {f} {o} {class} {}", opt(local)));
+                    self.post();
+                    f += 1 << o;
+                }
+            }
+            self.q("stats".into());
+            self.q("tstats".into());
+            self.validate_if_online();
+            let _ = round;
+        }
+    }
+
     /// one history of about `len` operations
     pub fn history(&mut self, len: usize) {
+        if self.flavor == Flavor::InitCycle {
+            self.init_cycle();
+        }
         let mut i = 0;
         while i < len {
             i += 1;
